@@ -292,7 +292,7 @@ theorem i2b_inv2x_step (f : Sem) (j : Job) (cl : Cluster) (s s' : Sys) (st : Ste
       cases hs
       obtain ⟨_, hd0, _, _, _, _, hon', _⟩ := once_assignOne j cl s.ctl c2 a prep h1.once has
       have ft := i2b_assignOne_tracked j cl s.ctl c2 a prep has
-      obtain ⟨_, e2, e3, _⟩ := i2b_applyCmds_frame j cl (actCmds a prep) s.env
+      obtain ⟨_, e2, e3, _⟩ := i2b_applyCmds_frame j cl (actCmds j a prep) s.env
       refine ⟨?_, ?_, ?_⟩
       · intro t ht; simp only [ft] at ht; exact hx.tracked_valid t ht
       · have hnd := hx.flight_unique
@@ -324,6 +324,7 @@ theorem i2b_inv2x_step (f : Sem) (j : Job) (cl : Cluster) (s s' : Sys) (st : Ste
   | env es =>
     simp only [step] at hs
     split at hs; · cases hs
+    rw [envStepP_eq f j s.env es h1.no_trim] at hs
     cases he : envStep f j s.env es with
     | none => simp [he] at hs
     | some e' =>
